@@ -14,11 +14,21 @@ TRUSTED_BASE = ["Spec/RebaseListing.lean: the format-31 writer and `expectedMap`
                 "export_roundtrip is about JSON values",
                 "Model/LineText.lean: strings.Split/Contains/TrimLeft, sort.Strings modelled on ASCII",
                 "ioutil.ReadFile (rebase.Read) — exercised by the correspondence check only"]
-ASSUMPTIONS = ["inputs are ASCII (rune(trimmedString[0]) is a byte; range over line[3:] yields runes)",
-               "free text (prose, supplier names, field values) contains no record tag <1>..<8> that would be dispatched before the "
-               "line's own tag (Spec.RebaseListing.dispatches / noTags); the parser dispatches on strings.Contains, so such text is read "
-               "as another field — recorded as an observation in notes/findings/C16.md, outside the quantifier by this reading"]
-PARTIAL = []
+ASSUMPTIONS = ["supplier code letters are ASCII (rune(trimmedString[0]) is a byte, the name is cut at byte 9; range over line[3:] yields "
+               "runes); all other text may be any valid UTF-8",
+               "READING (coordinator's ruling): for an empty <2> line 'exactly as written' is read as the list Go's strings.Split(\"\", \",\") "
+               "produces, the one-element list [\"\"]; an empty <7> gives nil. expectedMap demands exactly that.",
+               "every record of a listing has all eight lines <1>..<8> (format 31); the text is LF-terminated"]
+PARTIAL = ["NARROWING of 'arbitrary header prose' and of free field text: parse_listing is proved, and cases are judged, for prose, supplier lines "
+           "and further-reference lines WITHOUT any record tag <1>..<8> (noTags) and for field values without an EARLIER tag (dispatches k: "
+           "no <j>, j < k, in the line of field k). rebase.Parse dispatches on strings.Contains in the order 1..8, so such text is filed "
+           "under another field (a prose line 'see <8> below' stores a bogus entry; '<8>ref ... <2>' loses the record). A LATER tag inside "
+           "an earlier field is in the domain, proved and sampled. The excluded shapes are sampled as out-of-domain probes (model drift only).",
+           "export_roundtrip is a statement about JSON VALUES (exportJ / importJ, driven by the regenerated struct tags); the text layer of "
+           "encoding/json is trusted and tied by comparing the real export's token stream and Go's own Unmarshal+DeepEqual on every case "
+           "(incl. quotes, backslashes, &, <, >, control characters, U+2028, multi-byte UTF-8). For field bytes that are NOT valid UTF-8 "
+           "(e.g. Latin-1) the clause is false of the code — json.Marshal writes U+FFFD — and such input cannot be expressed in a case file"]
+TIMEOUT_MS = 8000
 
 WORDS = ["New", "England", "Biolabs", "Takara", "Bio", "Inc.", "Ltd.", "(3/21)", "(11/20)", "Co.,", "Life", "Technologies", "-", "CHIMERx",
          "Acetobacter", "aceti", "ss", "M.", "Fukaya", "J.", "vol.", "56,", "pp.", "161-166.", "(1988)", "<ENZYME", "NAME>", "5'", "3'",
@@ -28,8 +38,16 @@ CODES = "BCEIJKMNOQRSVXYFGHUWZabcdefg0123456789*#@<>"
 TAGRE = re.compile(r"<[1-8]>")
 
 
-def phrase(r, lo=0, hi=8):
-    s = " ".join(r.choice(WORDS) for _ in range(r.randint(lo, hi)))
+SPECIAL = ['"', "\\", "&", "<", ">", "'", "/", "\u2028", "\x7f", "\u00e9", "\u00fc", "\u03b2", "\u4e2d", "\U0001F9EC", "\x01", "`", "%", "{", "}", "[", "]"]
+
+
+def phrase(r, lo=0, hi=8, special=0.25):
+    ws = [r.choice(WORDS) for _ in range(r.randint(lo, hi))]
+    if ws and r.random() < special:          # characters a JSON writer can get wrong: quotes, backslash, &, <, non-ASCII, control
+        for _ in range(r.randint(1, 3)):
+            i = r.randrange(len(ws))
+            ws[i] = ws[i] + r.choice(SPECIAL) if r.random() < 0.5 else r.choice(SPECIAL) + ws[i]
+    s = " ".join(ws)
     t = r.random()
     if t < 0.06:
         s = r.choice([" ", "  ", "\t"]) + s          # text is kept exactly as written, blanks included
@@ -38,9 +56,32 @@ def phrase(r, lo=0, hi=8):
     return TAGRE.sub("<>", s)
 
 
+def with_tag(r, k, s):
+    """field k's text, sometimes with a record tag inside: a LATER tag (j > k) is dispatched correctly by the code's
+    switch order and is in the domain; an EARLIER tag (j < k) is filed under the wrong field — an out-of-domain probe
+    that shows a reordered switch as model drift"""
+    t = r.random()
+    if t < 0.04 and k < 8:
+        j = r.randint(k + 1, 8)
+    elif t < 0.0415 and k > 1:
+        j = r.randint(1, k - 1)
+    else:
+        return s
+    cut = r.randint(0, len(s))
+    return s[:cut] + "<%d>" % j + s[cut:]
+
+
 def enzname(r):
-    return r.choice(["", "I-", "M.", "Nt."]) + randword(r, "ABCDEGHKMNPRSTX", 1) + randword(r, "abcdeiklmnoprstuvy", 2) + \
+    n = r.choice(["", "I-", "M.", "Nt."]) + randword(r, "ABCDEGHKMNPRSTX", 1) + randword(r, "abcdeiklmnoprstuvy", 2) + \
         randword(r, "0123456789", r.randint(0, 4)) + r.choice(["I", "II", "III", "IV", "V", ""])
+    t = r.random()
+    if t < 0.05:
+        n = r.choice([" ", "\t"]) + n
+    elif t < 0.10:
+        n = n + r.choice([" ", "  "])
+    elif t < 0.16:
+        n = n + r.choice(SPECIAL) + r.choice(["", "x"])
+    return n
 
 
 def record(r, codes, names):
@@ -48,18 +89,25 @@ def record(r, codes, names):
     if names and r.random() < 0.02:
         name = r.choice(names)          # a repeated name: the later record replaces the earlier entry
     names.append(name)
+    name = with_tag(r, 1, name)
     t = r.random()
     niso = 0 if t < 0.3 else (1 if t < 0.5 else r.randint(2, 12))
-    isos = [enzname(r) or "X" for _ in range(niso)]
-    site = randword(r, SITE, r.randint(0, 20)) if r.random() < 0.9 else ""
-    meth = r.choice(["", "", "3(6)", "2(5),-2(5)", "?(4)"])
+    isos = [(enzname(r) if r.random() < 0.9 else phrase(r, 1, 2).replace(",", ".")) or "X" for _ in range(niso)]
+    if isos and r.random() < 0.05:
+        isos[-1] = with_tag(r, 2, isos[-1])
+    t = r.random()
+    site = "" if t < 0.1 else (randword(r, SITE, r.randint(0, 20)) if t < 0.85 else phrase(r, 0, 3))
+    if r.random() < 0.06:
+        site = r.choice([" ", "\t", ""]) + site + r.choice([" ", ""])
+    meth = r.choice(["", "", "3(6)", "2(5),-2(5)", "?(4)", " 3(6)", "3(6) ", phrase(r, 0, 2)])
     ncodes = 0 if (not codes or r.random() < 0.4) else r.randint(1, 15)
     cs = "".join(r.choice(codes) for _ in range(ncodes))
-    while TAGRE.search(cs):
+    while re.search(r"<[1-6]>", "<7>" + cs):
         cs = "".join(r.choice(codes) for _ in range(ncodes))
     nmore = r.choice([0, 0, 0, 1, 2, 4])
     more = [phrase(r, 1, 25) for _ in range(nmore)]
-    return [name, str(niso)] + isos + [site, meth, phrase(r, 0, 4), phrase(r, 0, 3), cs, phrase(r, 0, 25), str(nmore)] + more
+    return [name, str(niso)] + isos + [with_tag(r, 3, site), with_tag(r, 4, meth), with_tag(r, 5, phrase(r, 0, 4)),
+                                      with_tag(r, 6, phrase(r, 0, 3)), cs, phrase(r, 0, 25), str(nmore)] + more
 
 
 def listing_case(r, nrec, nsup=None, indent=None):
@@ -76,7 +124,8 @@ def listing_case(r, nrec, nsup=None, indent=None):
     c.append(str(nprose))
     for _ in range(nprose):
         c.append(r.choice(["", " ", "    " + phrase(r), phrase(r), "REBASE codes for commercial sources of enzymes ", "REBASE version 104",
-                           "<REFERENCES>only the primary references", "                K        Takara (1/98)"]))
+                           "<REFERENCES>only the primary references", "                K        Takara (1/98)"])
+                 + ("  see <%d> below" % r.randint(1, 8) if r.random() < 0.003 else ""))   # a tag in the prose: out-of-domain probe
     c.append(r.choice(["", "", "", " ", "\t", "  \t "]))                       # blank line shape
     c.append(r.choice(["                ", "\t", "\t\t", "", " \t ", "    "]) if indent is None else indent)
     c.append(str(r.choice([0, 0, 1, 3])))                                      # afterHeading
@@ -100,7 +149,9 @@ def cases(seed, tier):
     n = 2500 if tier == "quick" else 8000
     for _ in range(n):
         yield listing_case(r, loglen(r, 1, 40))
-    for _ in range(6 if tier == "quick" else 60):
+    for nrec in [257, 300]:                       # more records than any fixed-size internal queue is likely to hold
+        yield listing_case(r, nrec)
+    for _ in range(4 if tier == "quick" else 60):
         yield listing_case(r, r.choice([100, 200, 300, 300]))
     # probes outside the quantifier (never judged; drift of the model is reported as information)
     yield ["raw", ""]
